@@ -22,8 +22,9 @@ EXPLANATION = (
     "handler and exhaustiveness of its loop body; the resend call is dominated by `sent is None`; writers of the "
     "`sent` attribute; table type and insertion site; guard facts at the two _connect() call sites; structure of "
     "the connect retry closures; dominance order inside close(); call graph of sendString."
+    ' Also: the connect loop goes on only while a request is waiting, and the back-off Deferred kept as the pending attempt always gets its callback (R5, finding F43).'
 )
-SHARED = [('C06', ['R5'], 'a cancelled request is never re-sent: the canceller drops an unwritten entry and the loss handler drops cancelled ones')]
+SHARED = [('C06', ['R1'], 'an id still in the table is never stored again: a re-used key keeps the old queue position and would be re-sent ahead of requests issued before it'), ('C06', ['R5'], 'a cancelled request is never re-sent: the canceller drops an unwritten entry and the loss handler drops cancelled ones')]
 ASSUMPTIONS = ["OrderedDict iterates in insertion order", "Twisted calls connectionLost once per connection"]
 BC = "brokerclient:_KafkaBrokerClient"
 
@@ -228,7 +229,7 @@ def run(ctx):
 
     # ---- R5 back-off loop
     r = ctx.rule("R5", "connect failure: stop when closing, else count, policy delay, delayed retry kept in `connector`; "
-                       "success resets the count; the loop ends when nothing waits", 10, "B+E")
+                       "success resets the count; the loop ends when nothing waits; only close() cancels", 11, "B+E")
     # the connect loop, identified by role (not by name).  An *attempt site* is a statement that stores a
     # maybeDeferred(...) attempt in `connector`; the function holding it (a closure of _connect, or _connect itself)
     # registers the success / failure handlers on it.  All sites must agree on the handlers.
@@ -320,6 +321,26 @@ def run(ctx):
                 "after the back-off another connection attempt is made whether or not a request is still waiting", where(cbd, cbd.node),
                 "a broker stays down, every request to it times out: the client keeps dialling it for ever, and re-opens the connection "
                 "when it comes back although nothing is to be sent")
+    # the pending attempt / back-off timer is what keeps the loop alive: only close() cancels it (an address update or a
+    # disconnect() that cancels the back-off timer ends the loop and leaves the dead handle in `connector`)
+    bci_ = prog.cls(BC)
+    stray = []
+    for f_ in sorted([x for x in prog.funcs.values() if x.cls is bci_ or (x.parent is not None and x.qname.startswith(BC + "."))], key=lambda x: x.qname):
+        top_ = f_
+        while top_.parent is not None:
+            top_ = top_.parent
+        if top_.name == "close":
+            continue
+        cff_ = ctx.cfg(f_)
+        for n_ in cff_.nodes:
+            for c_ in n_.calls():
+                if call_name(c_) == "cancel" and isinstance(c_.func, ast.Attribute):
+                    og_ = value_origins(cff_, n_.id, c_.func.value, params=f_.params) if isinstance(c_.func.value, ast.Name) else [(n_.id, c_.func.value)]
+                    if any(norm(e_) == "self.connector" for _d, e_ in (og_ or [])):
+                        stray.append("%s line %d" % (f_.qname, n_.lineno))
+    r.check(not stray, "%s#connector-cancelled-only-by-close" % BC, "the pending connection attempt / back-off timer is cancelled outside close(): %s" % stray,
+            where(conn, conn.node), "the cancelled back-off timer never calls the retry: the loop is dead, `connector` stays set, every queued and "
+            "future request waits for ever")
     regs = registrations(eb, prog)
     rd = [g for g in regs if g["cb"] is not None and prog.resolve_callable(eb, g["cb"]) is not None]
     again = any(any(prog.resolve_call(prog.resolve_callable(eb, g["cb"]), c) in starters for c in calls_in(prog.resolve_callable(eb, g["cb"])))
@@ -447,8 +468,8 @@ MUTANTS = [
      "old": "            self.connector = d = maybeDeferred(connect)\n            d.addCallback(cbConnect)\n            d.addErrback(ebConnect)",
      "new": "            d = maybeDeferred(connect)\n            d.addCallback(cbConnect)\n            d.addErrback(ebConnect)\n            self.connector = d", "expect": "C10.R5",
      "note": "seeded C20-4"},
-    {"id": "backoff-expiry-skips-reconnect", "file": "brokerclient.py", "old": "        def cbDelayed(result):\n            tryConnect()",
-     "new": "        def cbDelayed(result):\n            if not self.requests:\n                return\n            tryConnect()", "expect": "C10.R5", "note": "seeded C06-4"},
+    {"id": "backoff-expiry-skips-reconnect", "file": "brokerclient.py", "old": "                self.connector = None\n                return\n            tryConnect()",
+     "new": "                return\n            tryConnect()", "expect": "C10.R5", "note": "seeded C06-4 (since F43: the idle exit that keeps the fired back-off Deferred in `connector`)"},
     {"id": "failed-attempt-no-retry-when-idle", "file": "brokerclient.py", "old": "            self._failures += 1\n            delay = self._retryPolicy(self._failures)",
      "new": "            if not self.requests:\n                return None\n            self._failures += 1\n            delay = self._retryPolicy(self._failures)", "expect": "C10.R5",
      "note": "seeded C10-5"},
